@@ -265,6 +265,10 @@ pub(super) fn build_action(a: &Value) -> Action {
             .into()
         }
         "ibc_relay" => Action::Ibc(super::super::tests_app::bad_ibc_relay()),
+        "pairs_change" => astria_core::protocol::transaction::v1::action::CurrencyPairsChange::Addition(
+            std::iter::once("VERIF/USD".parse::<astria_core::oracles::price_feed::types::v2::CurrencyPair>().unwrap()).collect(),
+        )
+        .into(),
         other => panic!("unknown action kind {other}"),
     }
 }
@@ -286,6 +290,7 @@ fn fee_change(kind: &str, b: u128, m: u128) -> FeeChange {
         "validator_update" => FeeChange::ValidatorUpdate(FeeComponents::new(b, m)),
         "ics20_withdrawal" => FeeChange::Ics20Withdrawal(FeeComponents::new(b, m)),
         "ibc_relay" => FeeChange::IbcRelay(FeeComponents::new(b, m)),
+        "pairs_change" => FeeChange::CurrencyPairsChange(FeeComponents::new(b, m)),
         other => panic!("unknown fee kind {other}"),
     }
 }
@@ -348,6 +353,7 @@ fn put_fee(state: &mut StateDelta<Snapshot>, kind: &str, b: u128, m: u128) {
         FeeChange::ValidatorUpdate(f) => state.put_fees(f),
         FeeChange::Ics20Withdrawal(f) => state.put_fees(f),
         FeeChange::IbcRelay(f) => state.put_fees(f),
+        FeeChange::CurrencyPairsChange(f) => state.put_fees(f),
         _ => unreachable!(),
     }
     .unwrap();
@@ -558,8 +564,11 @@ pub(super) async fn dump(state: &StateDelta<Snapshot>) -> BTreeMap<String, Strin
 ///  * the validator set / per-block validator updates (spec/Validators.tla; compared through the getter below),
 ///  * `bridge/.../last_tx`: the id of the last transaction signed by a bridge account (a function of the tx bytes).
 ///  * penumbra-ibc's own bookkeeping of an outgoing packet (commitment, next send sequence).
+///  * the oracle's currency-pair state (`price_feed/`; spec/Oracle.tla and spec/Abci.tla): the ledger model only says who
+///    may add a pair.
 fn ignored_key(k: &str) -> bool {
     k.contains("validator")
+        || k.contains("price_feed/")
         || k.contains("last_tx")
         || k.contains("lasttx")
         || k.contains("commitments/ports/transfer")
